@@ -216,9 +216,60 @@ def run(rng: Rng, tier: str, index: int) -> RunResult:
             viol("resource:peak-memory", "tracemalloc peak %d octets for a token of %d octets" % (peak, token_size))
         if kind == "bomb":
             res.probe("bomb-%dMiB" % n)
+    if index % 12 == 0:
+        for v in threaded_decompression_problems(rng.sub("threads"), res, tr):
+            res.violation(ID, v[0], v[1], {"threaded": True, "seed": rng.label})
     res.events = tr.n
     res.digest = tr.digest()
     return res
+
+
+def threaded_decompression_problems(rng, res=None, tr=None) -> list:
+    """two threads decrypt zip=DEF tokens at the same time with the shared registry / algorithm objects: a stream over the limit and
+    a small one.  Under every sampled schedule each call ends as it does alone."""
+    from joserfc import jwe
+    from joserfc.errors import ExceededSizeError
+    from ..sched import Scheduler, RandomSwitch, Sweep1
+    out = []
+    key = K.make_oct(rng.sub("k"), 16)
+    jkey = K.to_jose_fast(key, True)
+    small_pt = b"small plaintext " * 12
+    mk = lambda content, r: rjwe.build("compact", {"alg": "dir", "enc": "A128GCM", "zip": "DEF"}, b"", [rjwe.Rcpt("dir", key)], r, content_octets=content).ser
+    big = mk(rjwe.deflate_raw(b"\x00" * 300000, 9), rng.sub("b1"))
+    exact = mk(rjwe.deflate_raw(b"A" * LIMIT, 9), rng.sub("b2"))
+    small = mk(rjwe.deflate_raw(small_pt, 6), rng.sub("b3"))
+    reg = JW.registry()
+
+    def call(tok):
+        def f():
+            return jwe.decrypt_compact(tok, jkey, registry=reg).plaintext
+        return f
+    pairs = [("over-limit", big, "small", small), ("small", small, "over-limit", big), ("at-limit", exact, "small", small), ("small", small, "small", small)]
+    for n in range(36):
+        na, ta, nb, tb = pairs[n % len(pairs)]
+        strat = RandomSwitch(rng.sub("s%d" % n), rng.pick([0.05, 0.15, 0.4])) if n % 3 else Sweep1(rng.randrange(5, 400))
+        o = Scheduler(strat, max_steps=60000, wall_limit=30.0).run([call(ta), call(tb)])
+        if res is not None:
+            res.case("threaded", n, na, nb)
+            res.fired("two-threads-decompressing")
+            tr.add("thr", n, na, nb, [r[0] if r else None for r in o.results], digest=False)
+        for name, r in ((na, o.results[0]), (nb, o.results[1])):
+            if r is None:
+                continue
+            if name == "over-limit":
+                if r[0] == "ok":
+                    out.append(("threaded:over-limit:returned-%d-octets" % len(r[1]), "with a second thread decrypting at the same time a stream expanding to 300000 octets returned %d octets" % len(r[1])))
+                elif not isinstance(r[1], ExceededSizeError):
+                    out.append(("threaded:over-limit:wrong-error:%s" % type(r[1]).__name__, str(r[1])[:80]))
+            else:
+                want = small_pt if name == "small" else b"A" * LIMIT
+                if r[0] != "ok":
+                    out.append(("threaded:within-limit:rejected:%s" % type(r[1]).__name__, "with a second thread decrypting at the same time the %s token was refused: %s" % (name, str(r[1])[:80])))
+                elif r[1] != want:
+                    out.append(("threaded:within-limit:plaintext-differs", "%s token returned %d octets" % (name, len(r[1]))))
+        if out:
+            return out[:1]
+    return out
 
 
 def framing_problem(tok, key, pt):
@@ -300,6 +351,8 @@ def make_token(prng, kind, n, cls, sender, alg, enc, form, pub, jkey):
 
 def replay(repro: dict):
     JW.ensure_drafts_registered()
+    if repro.get("threaded"):
+        return threaded_decompression_problems(Rng(repro["seed"]).sub("threads"))
     from joserfc.errors import ExceededSizeError
     key = rk.from_jwk(repro["key"], strict=False)
     jkey = K.to_jose_fast(key, True)
